@@ -84,7 +84,11 @@ def sweep(tools, W, spec, tier, rng, npairs=0):
                 cls = ignored_class(spec.kind, c, calls, k)
                 if left and cls != 'ignored-spool-cleanup':
                     probs.append('spool left behind in TMPDIR: %s' % left)
-            if r.status == 0:
+            if r.status == 0 and fired and ws.isdirectory_stat(c):
+                # `isdirectory` with a path that cannot be stat'ed is false (documented meaning, expr_eval_stat): the rules go on with
+                # the condition false; the run is judged by the world model (conformance incl. final tree) and by exactly-once above
+                rec['cond_stat'] = True
+            elif r.status == 0:
                 probs += oracle.at_final_place(r.final)
                 if fired and e not in ('short', 'shorthalf') and not ws.may_retry(c['name'], e):
                     cls = ignored_class(spec.kind, c, calls, k)
@@ -129,7 +133,7 @@ def thorough_job(job):
     spec, seed, npairs = job
     rng = random.Random('%s/%d' % (spec.name, seed))
     res = sweep(sweeplib.worker_tools(), sweeplib.worker_world(), spec, 'thorough', rng, npairs)
-    keep = [r for r in res if r.get('problem') or r.get('problems') or r.get('conform') != 'ok' or r.get('exit0_class') or r['plan'] is None]
+    keep = [r for r in res if r.get('problem') or r.get('problems') or r.get('conform') != 'ok' or r.get('exit0_class') or r.get('cond_stat') or r['plan'] is None]
     summ = {'scenario': spec.name, 'runs': len(res), 'single': sum(1 for r in res if r['plan'] and not r.get('pair')),
             'single_fired': sum(1 for r in res if r['plan'] and not r.get('pair') and r['fired']),
             'pairs': sum(1 for r in res if r.get('pair')), 'pairs_both_fired': sum(1 for r in res if r.get('pair') and r.get('both_fired')),
@@ -219,7 +223,8 @@ def run(rep):
         'evaluations': thorough['runs'] if thorough else len(results),
         'distinct_nontrivial': (thorough['single_faults_fired'] + thorough['pairs_in_which_both_faults_fired']) if thorough else fired,
         'rule': '%d scenarios (move, cross-device move, flag, flags, label, add-header, discard, exec, exec stdin, exec stdin body, attachment '
-                'exec, combinations, stdin delivery with/without rewriting, cross-device, discard, reject, a stdin message of several I/O '
+                'exec, combinations, rules with command / isdirectory / file-time date conditions - evaluated through fork, waitpid, stat inside '
+                'the run -, stdin delivery with/without rewriting, cross-device, discard, reject, with conditions, a stdin message of several I/O '
                 'buffers); for each the fault-free traced run and one run per (call index, errno/short) of its I/O call sequence (read/write: '
                 'EINTR in every tier - a retried transfer must not repeat, drop or shift bytes; exit 0 after EINTR/EAGAIN is accepted only '
                 'with the message intact at its final place); every run is (a) judged by the tree oracle (each message '
@@ -239,7 +244,10 @@ def run(rep):
                                         'directory, messages of one stdio buffer +-1; stdin: sizes around the read buffer and several buffers); for every '
                                         'scenario EVERY call index x EVERY failure of its row of the fault table (exhaustive), and %d sampled pairs of '
                                         'faults judged for loss-freedom; every run followed call by call by Model.mainP' % (thorough['variants_per_kind'], PAIRS))
-    rep.assumptions += ['single faults (pairs: loss-freedom only); identity sources pinned by the shim; command/isdirectory conditions are not part of the scenarios']
+    rep.coverage['isdirectory_stat_faults_judged_by_model'] = sum(1 for r in results if r.get('cond_stat'))
+    rep.assumptions += ['single faults (thorough tier, pairs of faults: loss-freedom only); identity sources pinned by the shim; a fault on the '
+                        'stat(2) of an `isdirectory` condition makes the condition false (documented meaning): those runs are judged by the world '
+                        'model and exactly-once, not by the place the fault-free run reaches']
 
 
 def replay(rep, path):
